@@ -2,7 +2,9 @@
    Statements only; every proof is `exact <lemma>`. *)
 From S4.Base Require Import Bytes.
 From S4.Model Require Import PrintCal Strftime Print Summary.
+From S4.Model Require Calendar CliDt StrftimeParse StrftimeRt.
 From S4.Proofs Require Import PrintSem PrintVariants PrintStrip SummaryProofs StrftimeProofs.
+From S4.Proofs Require CliDtAbsInfra CliDtMiscProofs StrftimeRoundtrip StrftimeGeneric.
 Open Scope nat_scope.
 
 (* The 2056-byte buffer of the printer is transparent: stdout items, last colour and the
@@ -120,3 +122,142 @@ Theorem C13_prepend_separator_percent_refuted :
   o_ff o = [97;37;37]%N /\ date_field o 0%Z = [49;57;55;48;37]%N.
 Proof. exact prepend_separator_percent_refuted. Qed.
 Print Assumptions C13_prepend_separator_percent_refuted.
+
+(* ================================================================== what the datetime field denotes *)
+From Coq Require Import String.
+Open Scope string_scope.
+Open Scope Z_scope.
+Import S4.Model.CliDt S4.Model.StrftimeParse S4.Model.StrftimeRt S4.Proofs.CliDtAbsInfra S4.Proofs.StrftimeRoundtrip S4.Proofs.StrftimeGeneric.
+
+(* one calendar, not two transcriptions: the printing side (PrintCal) is the parsing side (Calendar,
+   proved equal to the definitional day count in C14/C04) *)
+Theorem C13_one_calendar_civil_from_days :
+  forall z, PrintCal.civil_from_days z = S4.Model.Calendar.civil_from_days z.
+Proof. exact printcal_civil_from_days_eq. Qed.
+Print Assumptions C13_one_calendar_civil_from_days.
+
+Theorem C13_one_calendar_days_from_civil :
+  forall y m d, 1 <= m <= 12 -> PrintCal.days_from_civil y m d = S4.Model.Calendar.days_from_civil y m d.
+Proof. exact printcal_days_from_civil_eq. Qed.
+Print Assumptions C13_one_calendar_days_from_civil.
+
+Example C13_days_from_civil_month_hypothesis_needed :
+  PrintCal.days_from_civil 2000 15 1 <> S4.Model.Calendar.days_from_civil 2000 15 1.
+Proof. exact printcal_days_from_civil_differs_outside. Qed.
+Print Assumptions C13_days_from_civil_month_hypothesis_needed.
+
+(* strftime_default_roundtrip: the default field, printed by the model, read back by the model of
+   process_dt (all regenerated patterns in order), whatever --tz-offset: the instant truncated to
+   the millisecond.  Range: local year 0000..9999 (LOCAL_LO = 0000-01-01, LOCAL_HI = 10000-01-01,
+   local seconds), offset a whole number of minutes within a day. *)
+Theorem C13_strftime_default_roundtrip :
+  forall t off tz,
+    off mod 60 = 0 -> -86400 < off < 86400 ->
+    LOCAL_LO * 1000000000 <= t + off * 1000000000 < LOCAL_HI * 1000000000 ->
+    exists s, strftime default_fmt t off = Some s /\
+              m_resolve_abs (classify s) tz = Some (t / 1000000 * 1000000).
+Proof. exact default_roundtrip. Qed.
+Print Assumptions C13_strftime_default_roundtrip.
+
+Example C13_default_roundtrip_hyps_satisfiable :
+  (-12600) mod 60 = 0 /\ -86400 < -12600 < 86400
+  /\ LOCAL_LO * 1000000000 <= 1704164645123456789 + (-12600) * 1000000000 < LOCAL_HI * 1000000000.
+Proof. exact default_roundtrip_hyps_satisfiable. Qed.
+Print Assumptions C13_default_roundtrip_hyps_satisfiable.
+
+(* every instant of the years 0001..9998 UTC (in particular 1970..2099) is in the range, for every offset *)
+Theorem C13_default_roundtrip_range :
+  forall t off, -86400 < off < 86400 ->
+    -62135596800 * 1000000000 <= t < 253370764800 * 1000000000 ->
+    LOCAL_LO * 1000000000 <= t + off * 1000000000 < LOCAL_HI * 1000000000.
+Proof. exact default_roundtrip_range. Qed.
+Print Assumptions C13_default_roundtrip_range.
+
+Example C13_default_roundtrip_pre_1970 :
+  strftime default_fmt (-1500000001) 19800 = Some (s2b "19700101T052958.499+0530")
+  /\ m_resolve_abs (S4.Proofs.CliDtMiscProofs.cs "19700101T052958.499+0530") 0 = Some (-1501000000)
+  /\ (-1500000001) / 1000000 * 1000000 = -1501000000.
+Proof. exact default_roundtrip_pre_1970. Qed.
+Print Assumptions C13_default_roundtrip_pre_1970.
+
+(* refuted for a zone offset with seconds (finding: %z rounded to the minute, clock fields exact) *)
+Theorem C13_strftime_roundtrip_offset_seconds_refuted :
+  exists t off s v,
+    -86400 < off < 86400 /\ strftime default_fmt t off = Some s /\
+    m_resolve_abs (classify s) 0 = Some v /\ v <> t / 1000000 * 1000000 /\ v - t / 1000000 * 1000000 = 15 * 1000000000.
+Proof. exact default_roundtrip_refuted_offset_seconds. Qed.
+Print Assumptions C13_strftime_roundtrip_offset_seconds_refuted.
+
+Example C13_offset_seconds_rounding :
+  strftime default_fmt 1704164645123456789 19815 = Some (s2b "20240102T083420.123+0530")
+  /\ strftime default_fmt 1704164645123456789 19845 = Some (s2b "20240102T083450.123+0531")
+  /\ strftime default_fmt 1704164645123456789 (-29) = Some (s2b "20240102T030336.123-0000")
+  /\ strftime default_fmt 1704164645123456789 (-30) = Some (s2b "20240102T030335.123-0001").
+Proof. exact offset_seconds_rounding. Qed.
+Print Assumptions C13_offset_seconds_rounding.
+
+(* every complete format of the supported specifiers: print, then parse with the same format *)
+Theorem C13_strftime_generic_roundtrip :
+  forall fmt its p t off,
+    parse_fmt fmt = Some its ->
+    rt_ok (expand its) p = true ->
+    off mod 60 = 0 -> -86400 < off < 86400 ->
+    LOCAL_LO * 1000000000 <= t + off * 1000000000 < LOCAL_HI * 1000000000 ->
+    (has NTimestamp (expand its) = true -> 0 <= t) ->
+    exists s, strftime fmt t off = Some s /\
+      chrono_parse fmt (has_z (expand its)) (if has NTimestamp (expand its) then 0 else off) (classify s)
+      = POk (t / result_unit p (expand its) * result_unit p (expand its)).
+Proof. exact strftime_generic_roundtrip. Qed.
+Print Assumptions C13_strftime_generic_roundtrip.
+
+Example C13_rt_ok_instances :
+  (exists its, parse_fmt default_fmt = Some its /\ rt_ok (expand its) 3 = true /\ has_z (expand its) = true
+               /\ has NTimestamp (expand its) = false /\ result_unit 3 (expand its) = 1000000)
+  /\ (exists its, parse_fmt (s2b "%Y%m%dT%H%M%S%.9f") = Some its /\ rt_ok (expand its) 9 = true /\ has_z (expand its) = false
+               /\ has NTimestamp (expand its) = false /\ result_unit 9 (expand its) = 1)
+  /\ (exists its, parse_fmt (s2b "%s%.9f") = Some its /\ rt_ok (expand its) 9 = true /\ has_z (expand its) = false
+               /\ has NTimestamp (expand its) = true /\ result_unit 9 (expand its) = 1)
+  /\ (exists its, parse_fmt (s2b "[%F_%T.%3f] %s|%:z") = Some its /\ rt_ok (expand its) 3 = true /\ has_z (expand its) = true
+               /\ has NTimestamp (expand its) = true /\ result_unit 3 (expand its) = 1000000).
+Proof. exact rt_ok_instances. Qed.
+Print Assumptions C13_rt_ok_instances.
+
+Theorem C13_roundtrip_compact_nanos :
+  forall t off, off mod 60 = 0 -> -86400 < off < 86400 ->
+    LOCAL_LO * 1000000000 <= t + off * 1000000000 < LOCAL_HI * 1000000000 ->
+    exists s, strftime (s2b "%Y%m%dT%H%M%S%.9f") t off = Some s /\
+              chrono_parse (s2b "%Y%m%dT%H%M%S%.9f") false off (classify s) = POk t.
+Proof. exact roundtrip_compact_nanos. Qed.
+Print Assumptions C13_roundtrip_compact_nanos.
+
+Theorem C13_roundtrip_epoch_nanos :
+  forall t off, off mod 60 = 0 -> -86400 < off < 86400 -> 0 <= t ->
+    LOCAL_LO * 1000000000 <= t + off * 1000000000 < LOCAL_HI * 1000000000 ->
+    exists s, strftime (s2b "%s%.9f") t off = Some s /\
+              chrono_parse (s2b "%s%.9f") false 0 (classify s) = POk t.
+Proof. exact roundtrip_epoch_nanos. Qed.
+Print Assumptions C13_roundtrip_epoch_nanos.
+
+(* the classes excluded by rt_ok do fail: %s before 1970, a digit after %s / after %.3f, two
+   precisions, %s with date-time but no offset in a zone other than UTC *)
+Example C13_roundtrip_refuted_classes :
+  strftime (s2b "%s%.9f") (-1500000000) 0 = Some (s2b "-2.500000000")
+  /\ chrono_parse (s2b "%s%.9f") false 0 (S4.Proofs.CliDtMiscProofs.cs "-2.500000000") = PErr
+  /\ strftime (s2b "%s%f") 1704164645123456789 0 = Some (s2b "1704164645123456789")
+  /\ chrono_parse (s2b "%s%f") false 0 (S4.Proofs.CliDtMiscProofs.cs "1704164645123456789") = PErr
+  /\ strftime (s2b "%Y%m%d%.3f%H%M%S") 1704164645123456789 0 = Some (s2b "20240102.123030405")
+  /\ chrono_parse (s2b "%Y%m%d%.3f%H%M%S") false 0 (S4.Proofs.CliDtMiscProofs.cs "20240102.123030405") = PErr
+  /\ strftime (s2b "%F %T%.3f %6f") 1704164645123456789 0 = Some (s2b "2024-01-02 03:04:05.123 123456")
+  /\ chrono_parse (s2b "%F %T%.3f %6f") false 0 (S4.Proofs.CliDtMiscProofs.cs "2024-01-02 03:04:05.123 123456") = PErr
+  /\ strftime (s2b "%s %F %T") 1704164645000000000 3600 = Some (s2b "1704164645 2024-01-02 04:04:05")
+  /\ chrono_parse (s2b "%s %F %T") false 0 (S4.Proofs.CliDtMiscProofs.cs "1704164645 2024-01-02 04:04:05") = PErr.
+Proof. exact roundtrip_refuted_classes. Qed.
+Print Assumptions C13_roundtrip_refuted_classes.
+
+(* the date field depends on the format, the zone offset and the instant only — not on the message *)
+Theorem C13_date_field_depends_on_instant_and_zone :
+  forall o o' (m m' : msg),
+    o_fmt o = o_fmt o' -> o_off o = o_off o' -> m_t m = m_t m' ->
+    date_field o (m_t m) = date_field o' (m_t m').
+Proof. exact date_field_depends_on_instant_and_zone. Qed.
+Print Assumptions C13_date_field_depends_on_instant_and_zone.
